@@ -136,6 +136,17 @@ def gen_c14(seed):
                 c["sampler"]["t"]["kind"] = "random"
                 k += 1
         sharing["pdomain"] = k >= 2
+    rs_ = rnd(seed, "shared-sampler")
+    if rs_.random() < 0.3:
+        # ONE non-static sampler object over x used by several conditions: alone, inside a product with a t-sampler,
+        # as the non-periodic sampler of a periodic condition
+        cand = [c for c in conds if c.get("sampler") and c["sampler"]["x"]["dom"] != "pdisc" and c["kind"] != "adaptw"]
+        if len(cand) >= 2:
+            x0 = dict(cand[0]["sampler"]["x"])
+            for c in cand:
+                c["sampler"]["x"] = dict(x0)
+                c["sampler"]["share_x"] = True
+            sharing["sampler_x"] = True
     hist = []
     order = list(range(n))
     r.shuffle(order)
